@@ -1,52 +1,88 @@
 """C06 certificates.  Certificate.tla (on Node.tla): for the state at the end of TLC-generated node scripts (chains with
-finality, on-chain aggregate commits, validator-set changes, weights 2/1/1 so that signer subsets matter) TLC prints
+finality, on-chain aggregate commits, validator-set changes, weights 4/3/2/1 so that signer subsets matter) TLC prints
 (i) the verdict table of verifyAggregateCommit over every height 0..tip+1 x every signer subset x kind
-(valid / signed for another chain / certificate of another block), (ii) pool cases: every set of certifying validators,
-(iii) single commits with 'may enter the pool'.  The harness evaluates the real verifyAggregateCommit on every row (real BLS),
-tampers aggregation bits, feeds single commits through singleCommitValidator, and requires the node's own GetAggregateCommit
-(after Certify + gossip) to pass the node's own verification."""
-import json, os
+(valid / signed for another chain / certificate of another block / one signed field changed / empty / half empty),
+(ii) pool cases: every set of certifying validators, and a different set per height, (iii) single commits with 'may enter the
+pool'.  The harness evaluates the real verifyAggregateCommit on every row (real BLS), tampers aggregation bits, feeds single
+commits through singleCommitValidator, and requires the node's own GetAggregateCommit (after Certify + gossip, also after
+concurrent deliveries) to pass the node's own verification.
+
+Beside the simulation of 4 validators: 8 validators (bitmap of exactly one byte), 12 validators with unequal, large weights
+(bitmap of two bytes), one directed chain of 118 blocks (a parameter change inside the finalized, uncertified range; the commit
+window [precommitted - 100, precommitted]), and HISTORIES (CertSpec): hand-encoded gossip messages of several single commits,
+Certify, the broadcast tick and GetAggregateCommit as steps in the middle of scripts whose blocks are added, removed and
+replaced afterwards."""
+import json, os, random, threading
 import common
 from common import Inconclusive, finish, log
 from props import c01
 
 LEVEL = "model_checking"
-HCFG = dict(nval=4, batch=4, init=dict(pcT=4, certT=6, w=[4, 3, 2, 1], gens=[1, 2, 3, 4]),
-            choices=[dict(pcT=4, certT=5, w=[4, 3, 2, 0], gens=[2, 1, 3]), dict(pcT=4, certT=6, w=[1, 2, 3, 4], gens=[4, 1, 2, 3])],
-            now=12, network=False)
-
+CH4 = [dict(pcT=4, certT=5, w=[4, 3, 2, 0], gens=[2, 1, 3]), dict(pcT=4, certT=6, w=[1, 2, 3, 4], gens=[4, 1, 2, 3])]
+HCFG = dict(nval=4, batch=4, init=dict(pcT=4, certT=6, w=[4, 3, 2, 1], gens=[1, 2, 3, 4]), choices=CH4, now=12, network=False)
 HCFG8 = dict(nval=8, batch=8, init=dict(pcT=6, certT=6, w=[1] * 8, gens=list(range(1, 9))), choices=[], now=20, network=False)
+# 12 validators: the weights of Certificate_12.cfg (5 1 3 1 2 1 4 1 2 1 3 1, thresholds 17) times 2^45 - sums of the order of
+# real proof-of-stake weights; every comparison of the rule is invariant under the common factor
+SCALE = 2 ** 45
+W12 = [5, 1, 3, 1, 2, 1, 4, 1, 2, 1, 3, 1]
+HCFG12 = dict(nval=12, batch=12, init=dict(pcT=17 * SCALE, certT=17 * SCALE, w=[w * SCALE for w in W12], gens=list(range(1, 13))),
+              choices=[], now=26, network=False)
+HCFG_HIST = dict(HCFG, now=30)
+HCFG_LONG = dict(HCFG, now=120)
+HCFGS = dict(sim=HCFG, eight=HCFG8, twelve=HCFG12, hist=HCFG_HIST, long=HCFG_LONG)
+
+JAVA = "-Xmx4g -XX:ParallelGCThreads=4"     # the additional TLC runs share the machine with the main one
+COUNT_KEYS = ("states", "verify_rows", "verify_rows_accepted", "bitmap_tampers_rejected", "single_commits_fed", "single_commits_admitted",
+              "pool_cases", "own_aggregates_nonempty")
 
 
-def run_eight(ctx, binp, keys_for_pid):
+def harness(ctx, binp, name, hcfg_name, dumps, keys_for_pid):
+    """run the replayer on a list of dumps; report its violations (with the harness configuration they need for a replay)"""
+    sf = ctx.path("c06_%s_dumps.ndjson" % name)
+    with open(sf, "w") as fh:
+        for d in dumps:
+            fh.write(json.dumps(d) + "\n")
+    cf = ctx.path("c06_cfg_%s.json" % name); json.dump(HCFGS[hcfg_name], open(cf, "w"))
+    of = ctx.path("c06_res_%s.json" % name)
+    p = ctx.run([binp, sf, cf, of], timeout=3000)
+    if not os.path.exists(of):
+        raise Inconclusive("c06 harness (%s) failed (rc=%d): %s" % (name, p.returncode, p.stderr[-1500:]))
+    res = json.load(open(of))
+    if res.get("harness_errors"):
+        raise Inconclusive("c06 harness error (%s): %s" % (name, res["harness_errors"][:2]))
+    for v in res.get("violations") or []:
+        if keys_for_pid is None or keys_for_pid(v["key"]):
+            if isinstance(v.get("replay"), dict):
+                v["replay"]["hcfg"] = hcfg_name
+            ctx.violation(v["key"], v["what"], v.get("replay"))
+    res["counts"] = res.get("counts") or {}
+    return res, sf
+
+
+def sample(rng, xs, n):
+    xs = list(xs or [])
+    return xs if len(xs) <= n else rng.sample(xs, n)
+
+
+def run_eight(ctx, binp, keys_for_pid, extended=False):
     """8 validators: the aggregation bitmap is exactly one byte (validator counts that are multiples of 8 sit on the
     boundary of every length rule); straight chains to finality, signer / certifier sets from SignerFamily"""
     cfg = c01.write_cfg(ctx, "cert8", c01.cfg_text("Certificate_8"))
     r = ctx.tlc("MCCertificate", cfg, workers=1, timeout=1800, simulate=4 if ctx.tier == "quick" else 30, depth=17, seed=ctx.seed + 8)
     if r["violation"]:
         raise Inconclusive("Certificate.tla (8 validators) violates one of its own properties: %s" % r["outpath"])
-    sf = ctx.path("cert8_dumps.ndjson")
     best = {}
     for d in ctx.dumps(r["out"]):
         if d["state"]["mhpc"] > d["state"]["cert"]:      # something is certifiable
             best[json.dumps(d["script"], sort_keys=True)] = d
     keep = sorted(best.values(), key=lambda d: -len(d["script"]))[:6 if ctx.tier == "quick" else 40]
-    with open(sf, "w") as fh:
-        for d in keep:
-            fh.write(json.dumps(d) + "\n")
     if not keep:
         raise Inconclusive("no 8-validator script reached a certifiable height")
-    cf = ctx.path("c06_cfg8.json"); json.dump(HCFG8, open(cf, "w"))
-    of = ctx.path("c06_res8.json")
-    p = ctx.run([binp, sf, cf, of], timeout=3000)
-    if not os.path.exists(of):
-        raise Inconclusive("c06 harness (8 validators) failed (rc=%d): %s" % (p.returncode, p.stderr[-1500:]))
-    res = json.load(open(of))
-    if res.get("harness_errors"):
-        raise Inconclusive("c06 harness error (8 validators): %s" % res["harness_errors"][:2])
-    for v in res.get("violations") or []:
-        if keys_for_pid is None or keys_for_pid(v["key"]):
-            ctx.violation(v["key"], v["what"], v.get("replay"))
+    rng = random.Random(ctx.seed + 8)
+    for d in keep:
+        d["mpool"] = sample(rng, d.get("mpool"), 8) if extended else []
+        d["conc"] = 1 if extended else 0
+    res, _ = harness(ctx, binp, "eight", "eight", keep, keys_for_pid)
     log("[c06] 8 validators: states=%d verify rows=%d (accepted %d) pool cases=%d non-empty own aggregates=%d violations=%s" % (
         res["states"], res["verify_rows"], res["verify_rows_accepted"], res["pool_cases"], res["own_aggregates_nonempty"],
         sorted(set(v["key"] for v in res.get("violations") or []))))
@@ -55,66 +91,213 @@ def run_eight(ctx, binp, keys_for_pid):
     return res
 
 
-def run_cert(ctx, keys_for_pid=None, replay_ok=True):
+def run_twelve(ctx, binp):
+    """12 validators with unequal weights: two bitmap bytes, the second partly used (flips in byte 1, 'drop the last byte'),
+    weights of the order of 2^47"""
+    quick = ctx.tier == "quick"
+    cfg = c01.write_cfg(ctx, "cert12", c01.cfg_text("Certificate_12"))
+    r = ctx.tlc("MCCertificate", cfg, workers=1, timeout=1800, simulate=3 if quick else 20, depth=23, seed=ctx.seed + 12, java_opts=JAVA)
+    if r["violation"]:
+        raise Inconclusive("Certificate.tla (12 validators) violates one of its own properties: %s" % r["outpath"])
+    best = {}
+    for d in ctx.dumps(r["out"]):
+        if d["state"]["mhpc"] > d["state"]["cert"]:
+            best[json.dumps(d["script"], sort_keys=True)] = d
+    keep = sorted(best.values(), key=lambda d: (-(d["state"]["mhpc"] - d["state"]["cert"]), -len(d["script"])))[:2 if quick else 12]
+    if not keep:
+        raise Inconclusive("no 12-validator script reached a certifiable height")
+    rng = random.Random(ctx.seed + 12)
+    for d in keep:
+        d["mpool"] = sample(rng, d.get("mpool"), 16)
+        d["conc"] = 2
+    res, _ = harness(ctx, binp, "twelve", "twelve", keep, None)
+    log("[c06] 12 validators (weights x 2^45): states=%d verify rows=%d (accepted %d) tampers rejected=%d pool cases=%d violations=%s" % (
+        res["states"], res["verify_rows"], res["verify_rows_accepted"], res["bitmap_tampers_rejected"], res["pool_cases"],
+        sorted(set(v["key"] for v in res.get("violations") or []))))
+    return res
+
+
+def run_long(ctx, binp):
+    """the directed chain (DirSpec): parameters change after block 3, no certificate before block 9 (the change lies inside
+    the finalized, uncertified range), certificates by the new validator set in blocks 9..14, then 104 more blocks without"""
+    cfg = c01.write_cfg(ctx, "certlong", c01.cfg_text("Certificate_long"))
+    r = ctx.tlc("MCCertificate", cfg, workers=1, timeout=1800, java_opts=JAVA)
+    if r["violation"]:
+        raise Inconclusive("Certificate.tla (directed chain) violates one of its own properties: %s" % r["outpath"])
+    ds = sorted(ctx.dumps(r["out"]), key=lambda d: len(d["script"]))
+    beyond = [d for d in ds if d["state"]["nextParams"] and d["state"]["cert"] + 2 <= d["state"]["nextParams"] <= d["state"]["mhpc"]]
+    after = [d for d in ds if d["state"]["cert"] >= 3 and d["state"]["mhpc"] > d["state"]["cert"] and d["state"]["tip"] <= 20]
+    wide = [d for d in after if d["state"]["mhpc"] >= d["state"]["cert"] + 2]
+    longs = [d for d in ds if d["state"]["tip"] > 100]
+    if not beyond or not after or not longs:
+        raise Inconclusive("the directed chain did not reach its states (beyond %d, after the change %d, long %d)" % (len(beyond), len(after), len(longs)))
+    quick = ctx.tier == "quick"
+    keep = beyond[:1 if quick else 2] + after[:1] + wide[:1 if quick else 4] + longs[:1]
+    seen, uniq = set(), []
+    for d in keep:
+        if len(d["script"]) not in seen:
+            seen.add(len(d["script"])); uniq.append(d)
+    rng = random.Random(ctx.seed + 100)
+    for d in uniq:
+        d["mpool"] = sample(rng, d.get("mpool"), 20 if quick else 200)
+        d["conc"] = (12 if quick else 100) if d["state"]["tip"] > 100 else 2
+    res, _ = harness(ctx, binp, "long", "long", uniq, None)
+    log("[c06] directed chain: states=%d (tips %s) verify rows=%d (accepted %d) singles admitted=%d pool cases=%d violations=%s" % (
+        res["states"], [d["state"]["tip"] for d in uniq], res["verify_rows"], res["verify_rows_accepted"], res["single_commits_admitted"],
+        res["pool_cases"], sorted(set(v["key"] for v in res.get("violations") or []))))
+    return res
+
+
+def run_hist(ctx, binp):
+    """histories (CertSpec): gossip messages, Certify, ticks and GetAggregateCommit in the middle of scripts"""
+    quick = ctx.tier == "quick"
+    cfg = c01.write_cfg(ctx, "certhist", c01.cfg_text("Certificate_hist"))
+    r = ctx.tlc("MCCertificate", cfg, workers=1, timeout=1800, simulate=60 if quick else 600, depth=30, seed=ctx.seed + 30, java_opts=JAVA)
+    if r["violation"]:
+        raise Inconclusive("Certificate.tla (histories) violates one of its own properties: %s" % r["outpath"])
+    by = {}
+    for d in ctx.dumps(r["out"]):
+        by[json.dumps(d["script"], sort_keys=True)] = d
+    ds = list(by.values())
+    rng = random.Random(ctx.seed + 30)
+    rng.shuffle(ds)
+    # a commit was admitted for a block that was replaced afterwards, and its height is certifiable at the end
+    stale = [d for d in ds if d.get("stale")]
+    plain = sorted([d for d in ds if not d.get("stale")], key=lambda d: (d.get("ndel", 0) > 0, -len(d["script"])))
+    keep = stale[:40 if quick else 400] + plain[:50 if quick else 500]
+    if len(keep) < 20:
+        raise Inconclusive("too few histories generated (%d)" % len(keep))
+    res, _ = harness(ctx, binp, "hist", "hist", keep, None)
+    c = res["counts"]
+    log("[c06] histories: scripts=%d (%d with a replaced block under a pooled commit) messages=%d commits fed=%d admitted=%d ticks=%d assembles=%d (non-empty %d) violations=%s" % (
+        c.get("hist_scripts", 0), len(stale[:40 if quick else 400]), c.get("hist_messages", 0), c.get("hist_commits_fed", 0), c.get("hist_commits_admitted", 0),
+        c.get("hist_ticks", 0), c.get("hist_assembles", 0), c.get("hist_assembles_nonempty", 0), sorted(set(v["key"] for v in res.get("violations") or []))))
+    return res
+
+
+def run_cert(ctx, keys_for_pid=None, replay_ok=True, extended=False, binp=None):
     """the certificate machinery; keys_for_pid filters the violation keys that belong to the calling property
-    (C15 uses the pool cases: what GetAggregateCommit assembles must pass the node's own verification)"""
-    binp = ctx.go_build("./cmd/c06")
+    (C15 uses the pool cases: what GetAggregateCommit assembles must pass the node's own verification).
+    extended (C06 itself): per-height certifier sets and concurrent deliveries on every reached state"""
+    binp = binp or ctx.go_build("./cmd/c06")
+    hname = "sim"
     if ctx.replay and replay_ok:
         d = json.load(open(ctx.replay))["replay"]
         one = dict(script=d["script"], state=d.get("state", {}), verify=[d["row"]] if "row" in d else [],
-                   pool=[dict(d["pool"], regossip=bool(d.get("regossip")))] if "pool" in d else [], singles=[d["single"]] if "single" in d else [])
-        sf = ctx.path("replay.ndjson"); open(sf, "w").write(json.dumps(one) + "\n")
+                   pool=[dict(d["pool"], regossip=bool(d.get("regossip")))] if "pool" in d else [], singles=[d["single"]] if "single" in d else [],
+                   mpool=[d["mpool"]] if "mpool" in d else [], conc=int(d.get("conc") or 0), hist=bool(d.get("hist")))
+        dumps = [one]
+        hname = d.get("hcfg") or ""
+        if hname not in HCFGS:
+            gens = [st.get("gen", 0) for st in (d.get("script") or []) if isinstance(st, dict)]
+            hname = "twelve" if gens and max(gens) > 8 else "eight" if gens and max(gens) > 4 else "sim"   # replay files written before "hcfg"
     else:
         traces = 12 if ctx.tier == "quick" else 120
         cfg = c01.write_cfg(ctx, "cert", c01.cfg_text("Certificate_sim"))
         r = ctx.tlc("MCCertificate", cfg, workers=1, timeout=1800, simulate=traces, depth=12, seed=ctx.seed)
         if r["violation"]:
             raise Inconclusive("Certificate.tla / Node.tla violates one of its own properties: %s" % r["outpath"])
-        sf = ctx.path("cert_dumps.ndjson")
         seen = set()
-        with open(sf, "w") as fh:
-            for d in ctx.dumps(r["out"]):
-                k = json.dumps(d["script"], sort_keys=True)
-                if k in seen:
-                    continue
-                seen.add(k); fh.write(json.dumps(d) + "\n")
-    hcfg = HCFG
-    if ctx.replay and replay_ok:
-        gens = [st.get("gen", 0) for st in (d.get("script") or []) if isinstance(st, dict)]
-        if gens and max(gens) > 4:
-            hcfg = HCFG8          # a case found with 8 validators
-    cf = ctx.path("c06_cfg.json"); json.dump(hcfg, open(cf, "w"))
-    of = ctx.path("c06_res.json")
-    p = ctx.run([binp, sf, cf, of], timeout=3000)
-    if not os.path.exists(of):
-        raise Inconclusive("c06 harness failed (rc=%d): %s" % (p.returncode, p.stderr[-1500:]))
-    res = json.load(open(of))
-    if res.get("harness_errors"):
-        raise Inconclusive("c06 harness error: %s" % res["harness_errors"][:2])
-    for v in res.get("violations") or []:
-        if keys_for_pid is None or keys_for_pid(v["key"]):
-            ctx.violation(v["key"], v["what"], v.get("replay"))
+        dumps = []
+        rng = random.Random(ctx.seed)
+        for d in ctx.dumps(r["out"]):
+            k = json.dumps(d["script"], sort_keys=True)
+            if k in seen:
+                continue
+            seen.add(k)
+            d["mpool"] = sample(rng, d.get("mpool"), 12) if extended else []
+            d["conc"] = 1 if extended else 0
+            dumps.append(d)
+    res, sf = harness(ctx, binp, "sim", hname, dumps, keys_for_pid)
     log("[c06] states=%d verify rows=%d (accepted %d) bitmap tampers rejected=%d singles fed=%d admitted=%d pool cases=%d non-empty own aggregates=%d violations=%s" % (
         res["states"], res["verify_rows"], res["verify_rows_accepted"], res["bitmap_tampers_rejected"], res["single_commits_fed"],
         res["single_commits_admitted"], res["pool_cases"], res["own_aggregates_nonempty"], sorted(set(v["key"] for v in res.get("violations") or []))))
     if not ctx.violations and (not ctx.replay and (res["verify_rows_accepted"] < 20 or res["own_aggregates_nonempty"] < 10 or res["single_commits_admitted"] < 10)):
         raise Inconclusive("too few acceptable commits / non-empty aggregates exercised: vacuous")
     if not (ctx.replay and replay_ok):
-        r8 = run_eight(ctx, binp, keys_for_pid)
-        for k in ("states", "verify_rows", "verify_rows_accepted", "bitmap_tampers_rejected", "single_commits_fed", "single_commits_admitted", "pool_cases", "own_aggregates_nonempty"):
-            res[k] = res.get(k, 0) + r8.get(k, 0)
+        r8 = run_eight(ctx, binp, keys_for_pid, extended)
+        res = merge(res, r8)
         res["states_with_8_validators"] = r8["states"]
     return res, sf
 
 
+def merge(a, b):
+    """add the counters of harness result b to a"""
+    for k in COUNT_KEYS:
+        a[k] = a.get(k, 0) + b.get(k, 0)
+    for k, v in (b.get("counts") or {}).items():
+        a["counts"][k] = a["counts"].get(k, 0) + v
+    a["experimental"] = (a.get("experimental") or []) + (b.get("experimental") or [])
+    return a
+
+
+# what a run must have exercised (per class: a run in which a class never occurred is inconclusive, not a pass)
+GUARDS = [
+    ("accept:valid", 20), ("accept:block-preceding-the-change", 1), ("accept:smaller-validator-set", 1), ("accept:empty", 5),
+    ("accept:bitmap-of-several-bytes", 5),
+    ("reject-with-sound-signers:height-not-above-certified", 1), ("reject-with-sound-signers:height-above-precommitted", 1),
+    ("reject-with-sound-signers:height-beyond-next-params", 1), ("reject:empty", 20), ("rows:halfempty-nosig", 20), ("rows:halfempty-nobits", 20),
+    ("tamper-rejected:flip8", 1), ("tamper-rejected:flip-last", 1), ("tamper-rejected:drop-last-byte", 1),
+    ("own_aggregates_with_bitmap_of_several_bytes", 3),
+    ("mpool_cases", 50), ("mpool_nonempty", 10), ("mpool_aggregate_below_the_top_height", 3), ("mpool_cases_by_gossip", 5),
+    ("singles_admitted_at_height_without_new_parameters", 5),
+    ("hist_scripts", 20), ("hist_commits_admitted", 20), ("hist_messages_of_2", 5), ("hist_messages_of_3", 5),
+    ("hist_fed:foreign-sig", 1), ("hist_fed:height-mismatch", 1), ("hist_fed:inactive", 1),
+    ("hist_fed:malformed", 5), ("hist_ticks", 5), ("hist_assembles_nonempty", 5),
+    ("hist_assembles_after_replacing_a_block_with_pooled_commit", 3),
+    ("conc_rounds", 20), ("conc_rounds_with_commits_admitted_from_gossip", 5),
+]
+
+
 def run(ctx):
-    res, sf = run_cert(ctx)
+    if ctx.replay:
+        res, sf = run_cert(ctx, extended=True)
+        finish(ctx, LEVEL, dict(traces_validated_against_impl=res["states"], samples=[str(json.load(open(ctx.replay))["replay"])[:300]], counts=res["counts"]))
+    binp = ctx.go_build("./cmd/c06")
+    # the additional configurations run, one after the other, next to the simulation of 4 and 8 validators
+    parts, errors = {}, []
+
+    def extra():
+        for name, fn in (("long", run_long), ("twelve", run_twelve), ("hist", run_hist)):
+            try:
+                parts[name] = fn(ctx, binp)
+            except Inconclusive as e:
+                errors.append("%s: %s" % (name, e))
+            except Exception as e:   # pragma: no cover
+                errors.append("%s: internal error %r" % (name, e))
+    t = threading.Thread(target=extra)
+    t.start()
+    try:
+        res, sf = run_cert(ctx, extended=True, binp=binp)
+    finally:
+        t.join()
+    if errors and not ctx.violations:
+        raise Inconclusive("; ".join(errors))
+    for name in ("hist", "long", "twelve"):
+        if name in parts:
+            res = merge(res, parts[name])
+    c = res["counts"]
+    c["hist_fed:malformed"] = sum(v for k, v in c.items() if k.startswith("hist_fed:") and k.split(":")[1] in (
+        "sig0", "sig95", "sig97", "id0", "id31", "id33", "addr0", "addr19", "addr21"))
+    exp = res.get("experimental") or []
+    if exp:
+        keys = sorted(set(v["key"] for v in exp))
+        log("[c06] NOT reported (sub-check behind VERIF_EXPERIMENTAL=1 until the finding is triaged): %s" % ", ".join(
+            "%s x%d" % (k, c.get("experimental:" + k, 0)) for k in keys))
+    missing = ["%s=%d (< %d)" % (k, c.get(k, 0), n) for k, n in GUARDS if c.get(k, 0) < n]
+    if missing and not ctx.violations:
+        raise Inconclusive("classes of the rule that this run did not exercise enough: " + ", ".join(missing))
     first = json.loads(open(sf).readline())
     cov = dict(traces_validated_against_impl=res["states"],
                samples=[dict(state=first.get("state"), verify_rows=first.get("verify", [])[:3], pool_cases=first.get("pool", [])[:2], singles=first.get("singles", [])[:2])],
                verify_rows=res["verify_rows"], verify_rows_accepted=res["verify_rows_accepted"], bitmap_tampers_rejected=res["bitmap_tampers_rejected"],
                single_commits_fed=res["single_commits_fed"], single_commits_admitted=res["single_commits_admitted"],
-               pool_cases=res["pool_cases"], own_aggregates_nonempty=res["own_aggregates_nonempty"],
-               rule="per reached node state: all heights 0..tip+1 x all non-empty signer subsets x 3 kinds; all certifier subsets; all (validator, height, block ref, signature) single commits")
-    finish(ctx, LEVEL, cov, assumptions=["real BLS12-381 (blst) trusted", "4 validators, weights 4/3/2/1 and two alternative parameter sets",
-                                         "the first 100 heights only (chains <= 9 blocks)", "pool admission is checked for soundness only (the node may discard more)"])
+               pool_cases=res["pool_cases"], own_aggregates_nonempty=res["own_aggregates_nonempty"], counts=dict(sorted(c.items())),
+               experimental_subcheck=dict(enabled=os.environ.get("VERIF_EXPERIMENTAL") == "1", held_back=sorted(set(v["key"] for v in exp)),
+                                          sample=(exp[0]["what"][:400] if exp else None)),
+               rule="per reached node state: heights 0..tip+1 (long chains: around every bound) x signer subsets x 9 kinds; certifier subsets, "
+                    "a certifier set per height; (validator, height, block ref, signature) single commits; histories of messages / Certify / "
+                    "ticks / GetAggregateCommit between blocks that are added, removed and replaced; concurrent deliveries")
+    finish(ctx, LEVEL, cov, assumptions=["real BLS12-381 (blst) trusted", "4 validators (weights 4/3/2/1 and two alternative parameter sets), 8 equal weights, 12 unequal weights x 2^45",
+                                         "chains <= 22 blocks and one directed chain of 118 blocks", "pool admission is checked for soundness only (the node may discard more)",
+                                         "one BLS key per validator identity (no key rotation under one address)"])
